@@ -70,6 +70,10 @@ def holds (i : Info) (t : List Ev) : Bool :=
   -- when Run() returns every server ever started has been stopped
   && (!(t.any fun e => match e with | .ret _ _ => true | _ => false) ||
       (i.live == 0 && t.all fun e => match e with | .runInv inst => t.contains (.runRet inst) | _ => true))
+  -- ... at that moment, not a little later: the Run of every server started before the return has returned before it
+  && (match t.findIdx? (fun e => match e with | .ret _ _ => true | _ => false) with
+      | some r => (t.take r).all fun e => match e with | .runInv inst => (t.take r).contains (.runRet inst) | _ => true
+      | none => true)
 
 /-- known finding C16-F1: an id `x` together with the id `x:stop` in two consecutive maps -/
 def knownClash (i : Info) (_t : List Ev) : Bool :=
